@@ -43,8 +43,8 @@ MAP_ASSUME = [
 ]
 
 NEST_ASSUME = [
-    "value-level World model with ONE current handle per container (HandlesCurrent); two live handles to one container are findings F2/F2b (known_findings.txt), reproduced on every run by the dualhandle stream",
-    "maps inside the World model use the default digester (4 levels); wrappers are the harness's SomeValue (2 bytes per level)",
+    "value-level World model with ONE current handle per container (HandlesCurrent); two live handles to one container are findings F2/F2b/F2c (known_findings.txt), reproduced on every run by the dualhandle stream; a handle object captured by the callback of a DETACHED child counts as live (F2c): the nested stream leaves a detached family alone while its top carries a callback on a map handle the program has since replaced",
+    "maps inside the World model use the default digester (4 levels; every third nested program feeds it a hash input under which keys of one bucket collide on all 4 levels); wrappers are the harness's SomeValue (2 bytes per level); the harness's CBOR decoders run with MaxNestedLevels 1024 during the nested stream (a map with 4-level collisions adds about 13 CBOR levels per nesting step, the cbor library's default bound is 32)",
     "facts about Arr.set/Arr.get on reference elements that C01 states only for plain values are explicit hypotheses of notify_updates_array_parent / mutIdx_ok_arrInsert (they are validated by the correspondence on every nested operation)",
 ]
 
@@ -78,7 +78,7 @@ PROPS = {
     "C10": {
         "streams": ["nested", "dualhandle", "slabid"], "driver": {"nested": "world", "slabid": "slabid"}, "level": "proof",
         "trusted_base": LEAN_TB, "assumptions": NEST_ASSUME,
-        "rule": "nested histories (arrays and maps in arrays and maps, wrapped 0-2 levels, depth up to 7, children growing and shrinking across the inline limit, parents restructured between child operations, commits + reload, commit + reopen + continue with re-fetched handles, handles obtained by lookup and by mutable iteration, byte-granular walks across the inline limit in both directions, PopIterate through child / detached handles with deep disposal, SetType on nested containers, deep removal of everything at the end; every third program with a hash-input provider under which keys collide on all 4 digest levels: children inside inline / external collision groups and last-level lists, inlined maps owning a standalone collision-group slab; plain values above the inline limit inside children; new children / SetType / detach / re-attach inside detached subtrees; Set(i, existing detached container); a standalone child overwritten in its own slot by itself under other wrappers; ~5% rejected requests through nested handles at any depth); plus the dual-handle scenarios; distinct = distinct programs",
+        "rule": "nested histories (arrays and maps in arrays and maps, wrapped 0-2 levels, depth up to 7, children growing and shrinking across the inline limit, parents restructured between child operations, commits + reload, commit + reopen + continue with re-fetched handles, handles obtained by lookup and by mutable iteration, byte-granular walks across the inline limit in both directions, PopIterate through child / detached handles with deep disposal, SetType on nested containers, deep removal of everything at the end; every third program with a hash-input provider under which keys collide on all 4 digest levels: children inside inline / external collision groups and last-level lists, inlined maps owning a standalone collision-group slab; plain values above the inline limit inside children; new children / SetType / detach / re-attach inside detached subtrees; Set(i, existing detached container); a standalone child overwritten in its own slot by itself under other wrappers; ~5% rejected requests through nested handles at any depth); two scripted model-free scenarios per run (a container as map KEY removed again; a child under a wrapper larger than the per-element limit); plus the dual-handle scenarios; distinct = distinct programs",
         "explanation": "Theorems: storable_inline_decision (inline exactly when a single slab fits the budget left after wrappers; size handed to the parent; value ID kept; storage effect), notify_updates_array_parent, handed_back_is_standalone, value_id_stable (all five operations), elem_sync_childStorable, mutIdx_ok_arrInsert, index_shift_order_independent. Tie: every nested operation replayed on the World model (observations, effects, nested dumps incl. the collision-group slabs of inlined maps); after every step the parent callback of every handle and the mutableElementIndex of every array (hooks VerifArrayHasParentUpdater / VerifMapHasParentUpdater / VerifArrayMutableElementIndex) compared with the model's hinfo / mutIdx (HST lines). Oracle: deep read-back through the outermost container, VerifyArray/VerifyMap, reload after commit; mutableElementIndex = positions of the child containers; every container in a parent has a callback; Inlined() == Inlinable(per-element limit minus wrappers) for every nested container after every mutation; a rejected request through a nested handle leaves every slab of the storage and the write-set keys unchanged (also filed under C18).",
     },
     "C11": {
